@@ -643,6 +643,30 @@ impl<'a> IExec<'a> {
         }
     }
 
+    // ------------------------------------------------------------ a canonical token changes its own metadata
+
+    pub fn do_probe_set_meta(&mut self, ctx: &mut Ctx, tok: u8, meta: &MetaSpec) {
+        let env = self.sim.env.clone();
+        let t = tok as usize % self.toks.len();
+        if self.toks[t].kind != TokKind::Probe {
+            return;
+        }
+        let name = NAMES[meta.name as usize % NAMES.len()];
+        let symbol = SYMS[meta.symbol as usize % SYMS.len()];
+        let decimals = DECIMALS[meta.decimals as usize % DECIMALS.len()];
+        let taddr = self.tok_addr[t].clone();
+        let r = self.sim.query(&taddr, "set_meta", (SStr::from_str(&env, name), SStr::from_str(&env, symbol), decimals).into_val(&env));
+        if r.is_err() {
+            ctx.harness("probe token refused set_meta".into());
+            return;
+        }
+        ctx.count("probe.canonical_token_changed_its_metadata");
+        self.toks[t].name = name.to_string();
+        self.toks[t].symbol = symbol.to_string();
+        self.toks[t].decimals = decimals;
+        ctx.trace_str("set_meta");
+    }
+
     // ------------------------------------------------------------ a designated minter's own actions (C05 supply clause)
 
     pub fn do_minter_mint(&mut self, ctx: &mut Ctx, tok: &TokRef, who: u8, to: u8, amount: i64) {
